@@ -44,6 +44,14 @@ def filters():
         yield 'a->b == "%s" and not c' % esc(p, '"')
         yield p            # the payload itself as a filter: must be rejected or harmless
         yield 'a == %s' % p
+    # every blank the grammar skips between tokens (space, tab, CR, LF, and the other characters Python's source reader treats as line ends),
+    # followed by something that is both a filter literal and a Python statement
+    for ws in ('\r', '\n', '\r\n', '\t', '\x0c', '\x0b', '\x1c', '\x85', '\u2028'):
+        for call in ('open("%s")' % CANARY, 'exec("import os")', '__import__("os")', 'print("x")'):
+            yield 'a ==%s%s' % (ws, call)
+            yield 'a%s== %s' % (ws, call)
+            yield 'not b and%sa == %s' % (ws, call)
+            yield '%sa == %s' % (ws, call)
     for n in NAMES + ['__class__', '_consts', 'NOT_FOUND', 'id']:
         yield n
         yield 'not %s' % n
